@@ -341,87 +341,40 @@ theorem C11_union_assoc (a b c : Rect) (ha : a.WF) (hb : b.WF) (hc : c.WF) (hab 
 /-! ### whole rows and columns as operands ("exactly the common cells", an unbounded side read as 1..MAX)
 
   `A:C` is stored with rows 0, `1:3` with columns 0.  The pinned code added the size MAX to the corner 0, so every
-  result stopped one short of the last column / row (`1:1 & XFD1` was #NULL!); repaired in /repo (fix: commit), the
-  model follows the repaired code. -/
+  result stopped one short of the last column / row (`1:1 & XFD1` was #NULL!, `1:1 & A1:XFD1` was `A1:XFC1`); repaired
+  in /repo (fix: 0c6b643 + the commit that keeps a side unbounded), the model follows the repaired code:
+  an unbounded side starts at 1, and a side of the result is unbounded again when that side of both operands is. -/
 
-/-- the cells an address denotes on the sheet: an unbounded side spans 1..MAX_COL / 1..MAX_ROW -/
-def Rect.covers (a : Rect) (c : Cell) : Bool := a.span.contains c
+/-- for a bounded rectangle "denotes" is plain containment -/
+theorem C11_covers_bounded (a : Rect) (h : a.WF) (c : Cell) : a.covers c ↔ a.contains c = true := covers_wf a h c
 
-/-- for a bounded rectangle this is plain containment -/
-theorem C11_covers_bounded (a : Rect) (h : a.WF) (c : Cell) : a.covers c = a.contains c := by
-  unfold Rect.covers; rw [span_of_wf a h]
-
-/-- `C11_inter_spec` for operands with unbounded rows and/or columns: the result is a bounded rectangle holding
-    exactly the cells denoted by both operands; #NULL! iff they denote no common cell -/
+/-- `C11_inter_spec` for operands with unbounded rows and/or columns (`Rect.GWF`: each side bounded or unbounded,
+    `Rect.covers`: an unbounded side spans 1..MAX_COL / 1..MAX_ROW): never #VALUE! on one sheet; #NULL! only when the
+    operands denote no common cell; a rectangle result denotes exactly the cells denoted by both operands, and a side
+    on which either operand is bounded is bounded (1 ≤ lo ≤ hi) in the result -/
 theorem C11_inter_spec_unbounded (a b : Rect) (ha : a.GWF) (hb : b.GWF) (hs : a.sheet = b.sheet) :
-    match a.inter b with
-    | .rect r => r.WF ∧ r.sheet = a.sheet ∧ ∀ c, r.contains c = (a.covers c && b.covers c)
-    | .null => ∀ c, ¬ (a.covers c = true ∧ b.covers c = true)
-    | .value => False := by
-  rw [inter_span a b ha hb]
-  exact C11_inter_spec a.span b.span (span_wf a ha) (span_wf b hb) hs
+    a.inter b ≠ .value ∧
+    (a.inter b = .null → ∀ c, ¬ (a.covers c ∧ b.covers c)) ∧
+    (∀ r, a.inter b = .rect r → r.GWF ∧ r.sheet = a.sheet ∧ (∀ c, r.covers c ↔ (a.covers c ∧ b.covers c)) ∧
+      ((a.c1 ≠ 0 ∨ b.c1 ≠ 0) → 1 ≤ r.c1 ∧ r.c1 ≤ r.c2) ∧ ((a.r1 ≠ 0 ∨ b.r1 ≠ 0) → 1 ≤ r.r1 ∧ r.r1 ≤ r.r2)) :=
+  inter_spec_gwf a b ha hb hs
 
-theorem C11_inter_cells_unbounded (a b r : Rect) (ha : a.GWF) (hb : b.GWF) (hs : a.sheet = b.sheet)
-    (h : a.inter b = .rect r) (c : Cell) : c ∈ r.cells ↔ c ∈ a.span.cells ∧ c ∈ b.span.cells := by
-  rw [inter_span a b ha hb] at h
-  exact C11_inter_cells a.span b.span r (span_wf a ha) (span_wf b hb) hs h c
-
-/-- union with unbounded operands: a bounded rectangle covering both, least among rectangles covering both -/
-theorem C11_union_bounding_unbounded (a b : Rect) (ha : a.GWF) (hb : b.GWF) (hs : a.sheet = b.sheet) :
-    ∃ r, a.union b = .rect r ∧ r.WF ∧ r.sheet = a.sheet ∧
-      (∀ c, a.covers c = true → r.contains c = true) ∧ (∀ c, b.covers c = true → r.contains c = true) ∧
-      (∀ s : Rect, (∀ c, a.covers c = true → s.contains c = true) → (∀ c, b.covers c = true → s.contains c = true) →
-        ∀ c, r.contains c = true → s.contains c = true) := by
-  obtain ⟨r, e, w, sh, h1, h2⟩ := C11_union_bounding a.span b.span (span_wf a ha) (span_wf b hb) hs
-  refine ⟨r, by rw [union_span a b ha hb]; exact e, w, sh, h1, h2, ?_⟩
-  intro s hsa hsb
-  exact C11_union_least a.span b.span s r (span_wf a ha) (span_wf b hb) hs e hsa hsb
-
-theorem C11_inter_comm_unbounded (a b : Rect) (ha : a.GWF) (hb : b.GWF) (hs : a.sheet = b.sheet) :
-    a.inter b = b.inter a ∧ a.union b = b.union a := by
-  rw [inter_span a b ha hb, inter_span b a hb ha, union_span a b ha hb, union_span b a hb ha]
-  exact ⟨C11_inter_comm _ _ (span_wf a ha) (span_wf b hb) hs, C11_union_comm _ _ (span_wf a ha) (span_wf b hb) hs⟩
-
-/-- idempotent up to notation: `1:3 & 1:3` is the bounded rectangle `A1:XFD3` denoting the same cells -/
-theorem C11_inter_idem_unbounded (a : Rect) (ha : a.GWF) : a.inter a = .rect a.span ∧ a.union a = .rect a.span := by
-  rw [inter_span a a ha ha, union_span a a ha ha]
-  exact ⟨C11_inter_idem _ (span_wf a ha), C11_union_idem _ (span_wf a ha)⟩
-
-/-- associativity with unbounded operands (the intermediate results are bounded rectangles) -/
-theorem C11_inter_assoc_unbounded (a b c : Rect) (ha : a.GWF) (hb : b.GWF) (hc : c.GWF) (hab : a.sheet = b.sheet)
-    (hbc : b.sheet = c.sheet) :
-    (a.inter b).andThen (fun r => r.inter c) = (b.inter c).andThen (fun r => a.inter r) := by
-  have hl : ∀ r : Rect, r.WF → r.inter c = r.inter c.span := by
-    intro r hr; rw [inter_span r c (wf_gwf r hr) hc, span_of_wf r hr]
-  have hr' : ∀ r : Rect, r.WF → a.inter r = a.span.inter r := by
-    intro r hr; rw [inter_span a r ha (wf_gwf r hr), span_of_wf r hr]
-  have s1 := C11_inter_spec a.span b.span (span_wf a ha) (span_wf b hb) hab
-  have s2 := C11_inter_spec b.span c.span (span_wf b hb) (span_wf c hc) hbc
-  have key := C11_inter_assoc a.span b.span c.span (span_wf a ha) (span_wf b hb) (span_wf c hc) hab hbc
-  rw [inter_span a b ha hb, inter_span b c hb hc]
-  cases h1 : a.span.inter b.span with
-  | rect r1 =>
-    rw [h1] at s1 key
-    cases h2 : b.span.inter c.span with
-    | rect r2 =>
-      rw [h2] at s2 key
-      simp only [Res.andThen] at key ⊢
-      rw [hl r1 s1.1, hr' r2 s2.1]; exact key
-    | null =>
-      rw [h2] at key
-      simp only [Res.andThen] at key ⊢
-      rw [hl r1 s1.1]; exact key
-    | value => rw [h2] at s2; exact absurd s2 id
-  | null =>
-    rw [h1] at key
-    cases h2 : b.span.inter c.span with
-    | rect r2 =>
-      rw [h2] at s2 key
-      simp only [Res.andThen] at key ⊢
-      rw [hr' r2 s2.1]; exact key
-    | null => rfl
-    | value => rw [h2] at s2; exact absurd s2 id
-  | value => rw [h1] at s1; exact absurd s1 id
+/-- `C11_inter_cells` with one operand unbounded (the case of pycel's `get_range`: a whole-row / whole-column
+    address against the bounded used area): the result is a bounded rectangle whose enumerated cells are exactly
+    the cells of `b` that `a` denotes — the last column XFD and the last row 1048576 included -/
+theorem C11_inter_cells_unbounded (a b r : Rect) (ha : a.GWF) (hb : b.WF) (hs : a.sheet = b.sheet)
+    (h : a.inter b = .rect r) (c : Cell) : r.WF ∧ (c ∈ r.cells ↔ (a.covers c ∧ c ∈ b.cells)) := by
+  obtain ⟨_, _, k⟩ := inter_spec_gwf a b ha (wf_gwf b hb) hs
+  obtain ⟨_, hsh, hcov, hc, hr⟩ := k r h
+  obtain ⟨b1, b2, b3, b4⟩ := hb
+  have wr : r.WF := by
+    have := hc (Or.inr (by omega)); have := hr (Or.inr (by omega))
+    unfold Rect.WF; omega
+  refine ⟨wr, ?_⟩
+  rw [mem_cells, mem_cells, ← covers_wf r wr, hcov c, covers_wf b ⟨b1, b2, b3, b4⟩, hsh, hs]
+  constructor
+  · rintro ⟨⟨x, y⟩, z⟩; exact ⟨x, y, z⟩
+  · rintro ⟨x, y, z⟩; exact ⟨⟨x, y⟩, z⟩
 
 /-- a bounded rectangle is never an "unbounded range", even when it spans every column or row of the sheet
     (`A1:XFD1` enumerates its 16384 cells; the pinned code refused with an AssertionError) -/
@@ -446,10 +399,17 @@ def Rect.op (i : Bool) (a b : Rect) : Res := if i then a.inter b else a.union b
 theorem toAddr_size (r : Rect) (h : r.WF) : r.toAddr.height = r.height ∧ r.toAddr.width = r.width := by
   rw [height_wf r h, width_wf r h]
   obtain ⟨h1, h2, h3, h4⟩ := h
-  unfold Addr.height Addr.width Rect.toAddr
+  have z1 : ¬ r.c1 = 0 := by omega
+  have z2 : ¬ r.c2 = 0 := by omega
+  have z3 : ¬ r.r1 = 0 := by omega
+  have z4 : ¬ r.r2 = 0 := by omega
+  have eq : r.toAddr = ⟨!(decide (r.c1 = r.c2) && decide (r.r1 = r.r2)), r⟩ := by
+    simp [Rect.toAddr, z1, z2, z3, z4]
+  rw [eq]
+  unfold Addr.height Addr.width
   by_cases e : r.c1 = r.c2 ∧ r.r1 = r.r2
   · simp [e.1, e.2]
-  · have : (r.c1 = r.c2 && r.r1 = r.r2) = false := by simpa using e
+  · have : (decide (r.c1 = r.c2) && decide (r.r1 = r.r2)) = false := by simpa using e
     simp only [this, Bool.not_false, ↓reduceIte]
     rw [height_wf r ⟨h1, h2, h3, h4⟩, width_wf r ⟨h1, h2, h3, h4⟩]; simp
 
@@ -574,6 +534,9 @@ example : (⟨[], 1, 1, 1, 1⟩ : Rect).inter ⟨[], 2, 2, 2, 2⟩ = .null := by
 -- row 1 and the last cell of row 1 (the witness of the repaired off-by-one), whole rows against whole columns
 example : (⟨[], 0, 1, 0, 1⟩ : Rect).GWF ∧ (⟨[], 0, 1, 0, 1⟩ : Rect).inter ⟨[], 16384, 1, 16384, 1⟩ = .rect ⟨[], 16384, 1, 16384, 1⟩ := by decide
 example : (⟨[], 0, 1, 0, 3⟩ : Rect).inter ⟨[], 2, 0, 3, 0⟩ = .rect ⟨[], 2, 1, 3, 3⟩ := by decide
+-- 1:3 & 2:5 = 2:3 (a side unbounded in both operands stays unbounded), A:A ** C2 = A:C
+example : (⟨[], 0, 1, 0, 3⟩ : Rect).inter ⟨[], 0, 2, 0, 5⟩ = .rect ⟨[], 0, 2, 0, 3⟩ := by decide
+example : (⟨[], 1, 0, 1, 0⟩ : Rect).union ⟨[], 3, 2, 3, 2⟩ = .rect ⟨[], 1, 0, 3, 0⟩ := by decide
 example : (⟨[], 1, 1, 1, 1⟩ : Rect).union ⟨[], 3, 3, 3, 3⟩ = .rect ⟨[], 1, 1, 3, 3⟩ := by decide
 example : Addr.Printable ⟨true, ⟨"My Sheet".toList, 26, 9, 27, 10⟩⟩ := ⟨by decide, by decide, by decide, by decide, by decide⟩
 example : ExcelSheet "Bob's sheet".toList ∧ '!' ∉ "Bob's sheet".toList := by unfold ExcelSheet; decide
